@@ -267,3 +267,25 @@ Theorem c13_check_legal_object : forall (X : Type) (x : X) (o : dobs) (with_alt 
   exists b, first_res o = Some (RId b) /\ length b = 16 /\ stable o with_alt = true.
 Proof. exact (@legal_entry_nil). Qed.
 Print Assumptions c13_check_legal_object.
+
+(* ---- the roster and the slice it was built from (NewRoster copies) ----
+   edits of the caller's slice after NewRoster leave the roster value alone: same
+   member list, same ID field, and that id is the one GetID() derives from the list *)
+Theorem c13_roster_value_after_edits : forall (H256 U5 : bytes -> bytes) g v edits,
+  new_roster_val H256 U5 g = Some v ->
+  let v' := snd (fold_left edit_world edits (g, v)) in
+  rv_list v' = g /\ rv_id v' = rv_id v /\ roster_get_id H256 U5 (rv_list v') = RId (rv_id v').
+Proof. exact roster_value_after_edits. Qed.
+Print Assumptions c13_roster_value_after_edits.
+
+Example c13_roster_value_example :
+  exists g e, apply_edit g e <> g /\
+    forall H256 U5, exists v, new_roster_val H256 U5 g = Some v.
+Proof. exact roster_value_example. Qed.
+Print Assumptions c13_roster_value_example.
+
+Theorem c13_check_alias : forall (L : Type) (unlit : L -> bytes) (kt : @ktab L) items,
+  gcheck unlit (CAlias kt items) = [] <->
+  exists ks, dec_ktab unlit kt = Some ks /\ forall it, In it items -> alias_item_ok unlit ks it = true.
+Proof. exact (@check_alias_nil). Qed.
+Print Assumptions c13_check_alias.
